@@ -6,8 +6,10 @@ Obj       kind (JanetMemoryType), ordered strong references, weak entries.
           A strong reference carries how the collector reaches its target:
             dec = true   through a Janet value, i.e. `janet_mark(x)`: the depth counter is checked / decremented
             dec = false  through a typed C pointer: direct call `janet_mark_function(frame->func)`,
-                         `janet_mark_funcdef(def->defs[i])`, `janet_mark_fiber(env->as.fiber)`, or the manual tail loops
-                         `table = table->proto; goto recur`, `fiber = fiber->child; goto recur` (no depth change)
+                         `janet_mark_funcenv(func->envs[i])`, or the manual tail loops
+                         `table = table->proto; goto recur`, `fiber = fiber->child; goto recur` (no depth change);
+                         with lvl = true: `if (depth) { depth--; janet_mark_funcdef(def->defs[i]); depth++; } else
+                         janet_mark_funcdef(def->defs[i]);` — a level is taken while one is left, never a spill
           A weak entry is one slot of a weak table / weak array: the weakly held referents and what the slot holds
           strongly while it exists (the value of a weak-key table slot, the key of a weak-value slot).
 mark      mirrors janet_collect's mark phase:  `markObj` = janet_mark_<type>, `markVal` = janet_mark (depth check,
@@ -29,6 +31,9 @@ abbrev Id := Nat
 structure Edge where
   dec : Bool
   tgt : Id
+  /-- for a typed-pointer edge (`dec = false`): the callee is entered one marking level lower while a level is left, and
+  at level 0 it is entered all the same — nothing is deferred (`janet_mark_funcdef(def->defs[i])` since a60a379) -/
+  lvl : Bool
   deriving Repr, DecidableEq
 
 structure WeakEntry where
@@ -75,13 +80,13 @@ def markObj (h : Heap) : Nat → Nat → Id → MState → MState
             if e.dec then
               -- janet_mark(child): `if (depth) { depth--; …; depth++ } else janet_gcroot(child)`
               (if d = 0 then { s with spill := e.tgt :: s.spill } else markObj h fuel (d - 1) e.tgt s)
-            else markObj h fuel d e.tgt s)
+            else markObj h fuel (if e.lvl then d - 1 else d) e.tgt s)
           { s with marked := s.marked.insert x }
 
 /-- one reference followed from an object or from the root set, depth counter `d` -/
 def markEdge (h : Heap) (fuel d : Nat) (s : MState) (e : Edge) : MState :=
   if e.dec then (if d = 0 then { s with spill := e.tgt :: s.spill } else markObj h fuel (d - 1) e.tgt s)
-  else markObj h fuel d e.tgt s
+  else markObj h fuel (if e.lvl then d - 1 else d) e.tgt s
 
 /-- weight of the unmarked part of the heap: bounds both the recursion depth and the number of drain iterations -/
 def objWeight (h : Heap) (i : Id) : Nat :=
@@ -99,7 +104,7 @@ def drain (h : Heap) (fuel D : Nat) : Nat → MState → MState
     | _ :: _ => { s with stuck := true }
   | n + 1, s => match s.spill with
     | [] => s
-    | x :: rest => drain h fuel D n (markEdge h fuel D { s with spill := rest } ⟨true, x⟩)
+    | x :: rest => drain h fuel D n (markEdge h fuel D { s with spill := rest } ⟨true, x, false⟩)
 
 def MState.init : MState := { marked := ∅, spill := [], stuck := false }
 
@@ -144,14 +149,14 @@ inductive Val where
 
 def Val.edges : Val → List Edge
   | .imm => []
-  | .ref i => [⟨true, i⟩]
+  | .ref i => [⟨true, i, false⟩]
 
 def Val.ids : Val → List Id
   | .imm => []
   | .ref i => [i]
 
 def vals (vs : List Val) : List Edge := vs.flatMap Val.edges
-def ptr (p : Option Id) : List Edge := match p with | some i => [⟨false, i⟩] | none => []
+def ptr (p : Option Id) : List Edge := match p with | some i => [⟨false, i, false⟩] | none => []
 
 open Gen.GC in
 def Obj.leaf (kind : Nat) : Obj := { kind, strong := [] }
@@ -190,7 +195,7 @@ def Obj.fiber (lastValue : Val) (args : List Val) (frames : List Frame) (env sup
 open Gen.GC in
 def Obj.function (fdef : Option Id) (envs : List Id) : Obj :=
   { kind := memFunction, strong := match fdef with
-      | some d => envs.map (fun e => ⟨false, e⟩) ++ [⟨false, d⟩]
+      | some d => envs.map (fun e => ⟨false, e, false⟩) ++ [⟨false, d, false⟩]
       | none => [] }
 /-- janet_env_maybe_detach, run by the mark phase on every reachable closure environment that is still on a fiber's
 stack: the environment is copied off the stack iff the owning fiber's status is in the (regenerated) detach set -/
@@ -214,12 +219,12 @@ open Gen.GC in
 otherwise (already detached, or the fiber is finished and the slots are copied out) → the captured values -/
 def Obj.funcenv (onStack : Option Id) (fiberStatus : Nat) (values : List Val) : Obj :=
   { kind := memFuncEnv, strong := match envModeAfterMark onStack fiberStatus with
-      | .onStack f => [⟨true, f⟩]
+      | .onStack f => [⟨true, f, false⟩]
       | .detached => vals values }
 open Gen.GC in
 def Obj.funcdef (constants : List Val) (defs : List Id) (source name : Option Id) (symbols : List Id) : Obj :=
-  { kind := memFuncDef, strong := vals constants ++ defs.map (fun d => ⟨false, d⟩) ++ ptr source ++ ptr name
-      ++ symbols.map (fun s => ⟨false, s⟩) }
+  { kind := memFuncDef, strong := vals constants ++ defs.map (fun d => ⟨false, d, Gen.GC.funcdefNestTakesLevel⟩) ++ ptr source ++ ptr name
+      ++ symbols.map (fun s => ⟨false, s, false⟩) }
 open Gen.GC in
 /-- janet_mark_abstract: the type's gcmark callback marks values (stream fibers, channel items and waiters, parser
 stack, peg constants, process pipes) -/
